@@ -170,6 +170,14 @@ def c06(lab, where):
     except C.ContentError as e:
         return [dict(kind="content-undecodable", err=str(e), where=where)]
     out = paritymod.check(lab, c)
+    cb = getattr(lab, "content_before", None)
+    if cb:
+        try:
+            c0 = C.decode(cb)
+        except C.ContentError:
+            c0 = None
+        if c0 is not None and c0.block_size == c.block_size and c0.hash_size == c.hash_size:
+            out += paritymod.deleted_continuity(c0, c)
     for o in out:
         o["where"] = where
     return out
@@ -195,6 +203,7 @@ def worker_lab(cfg, seed=0, exe=None):
 def materialize(cfg, saved, seed=0):
     L = worker_lab(cfg, seed)
     L.cfg = cfg
+    L.content_before = None
     if saved is None:
         L.mk()
         L.versions = {}
